@@ -4,7 +4,7 @@
 //!   vp-harness worker <ID> <tier> <seed> <i> <n>      one shard (internal)
 //!   vp-harness replay <path>                          re-run one saved case, library bypassed
 
-use vp_harness::engine::{self, ShardSummary, Tier, VERIF_ROOT};
+use vp_harness::engine::{self, verif_root, ShardSummary, Tier};
 use vp_harness::props;
 use serde_json::{json, Value};
 use std::collections::{BTreeMap, HashSet};
@@ -52,7 +52,7 @@ fn main() {
 }
 
 fn run_dir(id: &str) -> PathBuf {
-    Path::new(VERIF_ROOT).join("target").join("run").join(id)
+    verif_root().join("target").join("run").join(id)
 }
 
 fn worker(id: &str, tier: Tier, seed: u64, shard: usize, n: usize) {
@@ -80,7 +80,7 @@ fn parent(id: &str, tier: Tier) -> i32 {
     let dir = run_dir(id);
     let _ = std::fs::remove_dir_all(&dir);
     std::fs::create_dir_all(&dir).unwrap();
-    let _ = std::fs::create_dir_all(Path::new(VERIF_ROOT).join("evidence"));
+    let _ = std::fs::create_dir_all(verif_root().join("evidence"));
     let exe = std::env::current_exe().unwrap();
     let mut children = vec![];
     for i in 0..nshards {
@@ -235,7 +235,7 @@ fn parent(id: &str, tier: Tier) -> i32 {
         "wall_s": wall,
         "violations": seen.len(),
     });
-    let evp = Path::new(VERIF_ROOT).join("evidence").join(format!("{id}.json"));
+    let evp = verif_root().join("evidence").join(format!("{id}.json"));
     std::fs::write(&evp, serde_json::to_vec_pretty(&ev).unwrap()).expect("write evidence");
     println!(
         "{id} [{}] seed={seed}: {} evaluations, {} distinct non-trivial, {} violation signature(s), {} known finding(s), {:.1}s",
@@ -317,9 +317,13 @@ fn replay(path: &str) -> i32 {
 fn fuzz_campaign(def: &'static props::PropDef, seed: u64, total: &mut ShardSummary, inconclusive: &mut Vec<String>) -> Option<engine::SubrunInfo> {
     let id = def.id;
     let t0 = Instant::now();
-    let root = Path::new(VERIF_ROOT);
+    let root = verif_root();
     let build = Command::new("cargo")
-        .args(["+nightly", "fuzz", "build", "--fuzz-dir", "/verif/fuzz", "--target-dir", "/verif/target/fuzz", id])
+        .args(["+nightly", "fuzz", "build", "--fuzz-dir"])
+        .arg(root.join("fuzz"))
+        .arg("--target-dir")
+        .arg(root.join("target/fuzz"))
+        .arg(id)
         .env("CARGO_NET_OFFLINE", "true")
         .current_dir(root.join("fuzz"))
         .output();
